@@ -269,6 +269,12 @@ func Run(q string, st kvql.Storage, m Mode) (out *Outcome) {
 	phase := "plan"
 	defer func() {
 		if r := recover(); r != nil {
+			if e, ok := r.(error); ok && e == refstore.ErrRunaway {
+				// the store ended a run that went on polling after a permanent fault
+				out.Runaway = true
+				out.Frame = "storage polled without end after a failed call (" + topFrame() + ")"
+				return
+			}
 			out.Panic = fmt.Sprint(r)
 			out.PanicPhase = phase
 			out.Frame = topFrame()
